@@ -8,6 +8,7 @@
                   FOpts/FRMPayload compared as the MAC commands or bytes they carry)"
      C06.frame    "the bytes produced for every frame header, join payload, CFList ... are bit-for-bit
                   those prescribed"
+     C06.joinaccept  a decrypted join-accept (incl. both CFList kinds) decodes to the specification's field values
    bytes events (bytes -> value -> bytes):
      C08.reencode "every byte string that the frame decoder accepts (MHDR RFU bits zero) can be
                   re-encoded without error, and the re-encoding is byte-identical"
@@ -50,8 +51,8 @@ RtFails(e) ==
           ELSE <<>>)
        ELSE <<>>)
    \o (IF valid /\ ok /\ v.kind = "joinacc" THEN
-         (IF e.jerr # "" \/ ~Has(e, "jaback") THEN <<"C01.joinaccept">>
-          ELSE IF e.jaback # [v EXCEPT !.cflist = CanonCFList(v.cflist)] THEN <<"C01.joinaccept">>
+         (IF e.jerr # "" \/ ~Has(e, "jaback") THEN <<"C01.joinaccept", "C06.joinaccept">>
+          ELSE IF e.jaback # [v EXCEPT !.cflist = CanonCFList(v.cflist)] THEN <<"C01.joinaccept", "C06.joinaccept">>
           ELSE <<>>)
        ELSE <<>>)
 
